@@ -3018,7 +3018,10 @@ class MNOT(M_Pattern_One):
         return self.static_tags
 
     def _leaf_asts(self) -> tp_Set[type[AST]] | None:
-        leaf_asts = _LEAF_ASTS_FUNCS.get((p := self.pat).__class__, _leaf_asts_default)(p)
+        if not isinstance(p := self.pat, type) and p.__class__ is not MTYPES:  # only a pure type test can exclude node types from a search, MNOT(Name('x')) still needs to check all the other Names
+            return ASTS_LEAF__ALL
+
+        leaf_asts = _LEAF_ASTS_FUNCS.get(p.__class__, _leaf_asts_default)(p)
 
         if not leaf_asts:
             if leaf_asts is None:
@@ -5647,6 +5650,9 @@ def _leaf_asts_default(pat: _Pattern) -> tp_Set[type[AST]] | None:
         return AST2ASTSLEAF[pat._types]  # will be a single type here
 
     if isinstance(pat, AST):
+        if isinstance(pat, expr_context):  # an `expr_context` instance matches any other unless matching with `ctx=True`, which we don't know here
+            return AST2ASTSLEAF[expr_context]
+
         return AST2ASTSLEAF[pat.__class__]
 
     if isinstance(pat, str):  # gets here from a subclassed str
